@@ -465,6 +465,11 @@ def parse_file(lines, fname, pkg, sf=None):
                 c.expr = parse_expr(rest)
                 c.etext = rest
             elif kind == 'modifies':
+                if t.startswith('private '):
+                    # representation-level frame: state of the data structure's own objects and ghosts, invisible (and
+                    # unreachable) outside the owning package
+                    c.extra['private'] = True
+                    t = t[len('private '):]
                 c.extra['items'] = [x.strip() for x in t.split(',') if x.strip()]
             elif kind in ('mode', 'effect', 'serves', 'lp', 'trusted', 'note', 'inline', 'twin', 'pure', 'opaque',
                           'iterates', 'spawns', 'havoc', 'frame', 'reenters', 'ghostsync'):
